@@ -60,7 +60,7 @@ func (c *Ctx) signWhatYouSend() {
 			// signBodyCell(*bodyCell, privateKey)
 			ld, isLoad := scs[0].Call.Args[0].(*ssa.UnOp)
 			same := isLoad && ld.X == cellArg
-			key := strings.Join(leaves(scs[0].Call.Args[1]), ",") == "privateKey"
+			key := strings.Join(leaves(scs[0].Call.Args[1]), ",") == "#1"
 			order := ms[0].Block().Dominates(scs[0].Block()) && (ms[0].Block() != scs[0].Block() || before(ms[0], scs[0]))
 			okv = same && key && order
 			why = fmt.Sprintf("signs the marshalled cell: %v, with the privateKey parameter: %v, after marshalling: %v", same, key, order)
@@ -72,9 +72,9 @@ func (c *Ctx) signWhatYouSend() {
 	}
 	if f := c.mustFn(R, "wallet", "signBodyCell"); f != nil {
 		sg := callsTo(f, modPath+"/boc.Cell.Sign")
-		okv := len(sg) == 1 && strings.Join(leaves(sg[0].Call.Args[0]), ",") == "bodyCell" && strings.Join(leaves(sg[0].Call.Args[1]), ",") == "privateKey"
+		okv := len(sg) == 1 && strings.Join(leaves(sg[0].Call.Args[0]), ",") == "#0" && strings.Join(leaves(sg[0].Call.Args[1]), ",") == "#1"
 		c.check(okv, R, "signBodyCell signs its bodyCell with its privateKey", f.Pos(), "bodyCell.Sign(privateKey)", "signBodyCell no longer signs the body cell it was given with the key it was given")
-		c.literalIs(R, f, "SignedMsgBody", 1, map[string]string{"Sign": "bodyCell,privateKey", "Message": "bodyCell"})
+		c.literalIs(R, f, "SignedMsgBody", 1, pxMap("bodyCell,privateKey", map[string]string{"Sign": "bodyCell,privateKey", "Message": "bodyCell"}))
 		okM := false
 		for _, cl := range callsTo(f, modPath+"/tlb.Marshal") {
 			if mi, ok := cl.Call.Args[1].(*ssa.MakeInterface); ok {
@@ -86,7 +86,7 @@ func (c *Ctx) signWhatYouSend() {
 	if f := c.mustFn(R, "boc", "Cell.Sign"); f != nil {
 		okv := false
 		for _, cl := range callsTo(f, "crypto/ed25519.Sign") {
-			okv = derivesFrom(cl.Call.Args[1], callResult(modPath+"/boc.Cell.Hash"), false) && strings.Join(leaves(cl.Call.Args[0]), ",") == "key"
+			okv = derivesFrom(cl.Call.Args[1], callResult(modPath+"/boc.Cell.Hash"), false) && strings.Join(leaves(cl.Call.Args[0]), ",") == "#1"
 		}
 		c.check(okv, R, "Cell.Sign = ed25519.Sign(key, representation hash)", f.Pos(), "Sign(key, c.Hash())", "Cell.Sign no longer signs the cell's representation hash with the given key")
 	}
@@ -104,7 +104,7 @@ func (c *Ctx) signWhatYouSend() {
 		if len(sg) == 1 && len(wb) == 1 && len(wu) == 1 && len(ms) == 1 {
 			cell := sg[0].Call.Args[0]
 			sameCell := wb[0].Call.Args[0] == cell && wu[0].Call.Args[0] == cell && ms[0].Call.Args[0] == cell
-			key := strings.Join(leaves(sg[0].Call.Args[1]), ",") == "privateKey"
+			key := strings.Join(leaves(sg[0].Call.Args[1]), ",") == "#1"
 			sigArg := false
 			if ex, ok := wb[0].Call.Args[1].(*ssa.Extract); ok && ex.Tuple == ssa.Value(sg[0]) && ex.Index == 0 {
 				sigArg = true // the whole signature, not a part of it
@@ -139,14 +139,14 @@ func (c *Ctx) signWhatYouSend() {
 		for _, cl := range wu {
 			w, _ := constInt(cl.Call.Args[2])
 			src := strings.Join(leaves(cl.Call.Args[1]), ",")
-			c.check(w == 32 && src == "msgConfig.V5MsgType", R, name+": 32-bit message type prefix from msgConfig", cl.Pos(), "WriteUint(msgConfig.V5MsgType, 32)", fmt.Sprintf("%s writes the message type as %d bits from {%s}", name, w, src))
+			c.check(w == 32 && strings.HasSuffix(src, ".V5MsgType") && strings.HasPrefix(src, "#"), R, name+": 32-bit message type prefix from msgConfig", cl.Pos(), "WriteUint(msgConfig.V5MsgType, 32)", fmt.Sprintf("%s writes the message type as %d bits from {%s}", name, w, src))
 		}
 	}
 	if f := c.mustFn(R, "wallet", "walletV5R1.createSignedMsgBodyCell"); f != nil {
 		c.delegatesTo(R, f, 1, []string{modPath + "/wallet.walletV5R1.CreateSignedMsgBodyCell"})
 		for _, cl := range callsTo(f, modPath+"/wallet.walletV5R1.CreateSignedMsgBodyCell") {
 			a := []string{strings.Join(leaves(cl.Call.Args[1]), ","), strings.Join(leaves(cl.Call.Args[2]), ","), strings.Join(leaves(cl.Call.Args[4]), ",")}
-			c.check(fmt.Sprint(a) == "[privateKey internalMessages msgConfig]", R, "walletV5R1.createSignedMsgBodyCell forwards key, messages and config", cl.Pos(), fmt.Sprint(a), fmt.Sprintf("walletV5R1.createSignedMsgBodyCell forwards %v", a))
+			c.check(fmt.Sprint(a) == "[#1 #2 #3]", R, "walletV5R1.createSignedMsgBodyCell forwards key, messages and config", cl.Pos(), fmt.Sprint(a), fmt.Sprintf("walletV5R1.createSignedMsgBodyCell forwards %v", a))
 		}
 	}
 	// RawSendV2 asks for a signed *external* message
@@ -169,7 +169,7 @@ func (c *Ctx) verifyWhatWasSigned() {
 		okv := false
 		for _, cl := range callsTo(f, "crypto/ed25519.Verify") {
 			a := []string{strings.Join(leaves(cl.Call.Args[0]), ","), strings.Join(leaves(cl.Call.Args[1]), ","), strings.Join(leaves(cl.Call.Args[2]), ",")}
-			okv = a[0] == "publicKey" && a[1] == "body.Message" && a[2] == "body.Sign" && derivesFrom(cl.Call.Args[1], callResult(modPath+"/boc.Cell.Hash"), false)
+			okv = a[0] == "#1" && a[1] == "#0.Message" && a[2] == "#0.Sign" && derivesFrom(cl.Call.Args[1], callResult(modPath+"/boc.Cell.Hash"), false)
 			if !okv {
 				c.bad(R, "SignedMsgBody.Verify(publicKey, Hash(body.Message), body.Sign)", cl.Pos(), fmt.Sprintf("SignedMsgBody.Verify calls ed25519.Verify with arguments from %v", a))
 				return
@@ -196,7 +196,7 @@ func (c *Ctx) verifyWhatWasSigned() {
 		for _, cl := range callsTo(f, "crypto/ed25519.Verify") {
 			okH := derivesFrom(cl.Call.Args[1], callResult(modPath+"/boc.Cell.Hash"), false)
 			okS := derivesFrom(cl.Call.Args[2], callResult(modPath+"/boc.Cell.ReadBytes"), false)
-			okK := strings.Join(leaves(cl.Call.Args[0]), ",") == "publicKey"
+			okK := strings.Join(leaves(cl.Call.Args[0]), ",") == "#1"
 			okV = okH && okS && okK
 		}
 		// the hashed copy gets the unsigned bits and every ref
@@ -217,7 +217,7 @@ func (c *Ctx) verifyWhatWasSigned() {
 		// loop bound is RefsSize of the body
 		okLoop := false
 		for _, cl := range callsTo(f, modPath+"/boc.Cell.RefsSize") {
-			okLoop = strings.Join(leaves(cl.Call.Args[0]), ",") == "msgBody"
+			okLoop = strings.Join(leaves(cl.Call.Args[0]), ",") == "#0"
 		}
 		c.check(okV && okCopy && okRefs && okHashCopy && okLoop, R, "v5 verify: hash(copy of unsigned bits + all refs) checked against the signature with the given key", f.Pos(), "Verify(publicKey, Hash(copy), signature)", fmt.Sprintf("MessageV5VerifySignature: verify args %v, copy gets the unsigned bits %v, all refs %v (loop over RefsSize %v), the copy is what is hashed %v", okV, okCopy, okRefs, okLoop, okHashCopy))
 	}
@@ -225,7 +225,7 @@ func (c *Ctx) verifyWhatWasSigned() {
 		ms := callsTo(f, modPath+"/tlb.Unmarshal")
 		okv := len(ms) == 2
 		if okv {
-			okv = strings.Join(leaves(ms[0].Call.Args[0]), ",") == "msg" && derivesFrom(ms[1].Call.Args[0], func(v ssa.Value) bool { _, n, ok := fieldOf(v); return ok && n == "Body" }, false)
+			okv = strings.Join(leaves(ms[0].Call.Args[0]), ",") == "#0" && derivesFrom(ms[1].Call.Args[0], func(v ssa.Value) bool { _, n, ok := fieldOf(v); return ok && n == "Body" }, false)
 		}
 		c.check(okv, R, "the signed body is decoded from the external message's body", f.Pos(), "Unmarshal(msg, &m); Unmarshal(m.Body.Value, &signedBody)", "extractSignedMsgBody no longer decodes the SignedMsgBody from the message body")
 	}
@@ -236,14 +236,14 @@ func (c *Ctx) verifyWhatWasSigned() {
 func (c *Ctx) walletBodyLiterals() {
 	const R = "E15.config-flow"
 	vu := "msgConfig.ValidUntil"
-	c.literalIs(R, c.mustFn(R, "wallet", "walletV3.createSignedMsgBodyCell"), "MessageV3", 1, map[string]string{"SubWalletId": "w.subWalletID", "ValidUntil": vu, "Seqno": "msgConfig.Seqno", "RawMessages": "internalMessages"})
-	c.literalIs(R, c.mustFn(R, "wallet", "walletV4.createSignedMsgBodyCell"), "MessageV4", 1, map[string]string{"SubWalletId": "w.subWalletID", "ValidUntil": vu, "Seqno": "msgConfig.Seqno", "RawMessages": "internalMessages"})
-	c.literalIs(R, c.mustFn(R, "wallet", "walletHighloadV2.createSignedMsgBodyCell"), "HighloadV2Message", 1, map[string]string{"SubWalletId": "w.subWalletID", "BoundedQueryID": "call:math/rand.Uint32," + vu, "RawMessages": "internalMessages"})
-	c.literalIs(R, c.mustFn(R, "wallet", "walletV5R1.CreateSignedMsgBodyCell"), "extV5R1SignedMessage", 1, map[string]string{"WalletId": "w.walletID", "ValidUntil": vu, "Seqno": "msgConfig.Seqno", "Actions": "internalMessages", "ExtendedActions": "extensionsActions"})
-	c.literalIs(R, c.mustFn(R, "wallet", "walletV5R1.CreateMsgBodyWithoutSignature"), "extV5R1SignedMessage", 1, map[string]string{"WalletId": "w.walletID", "ValidUntil": vu, "Seqno": "msgConfig.Seqno", "Actions": "internalMessages"})
+	c.literalIs(R, c.mustFn(R, "wallet", "walletV3.createSignedMsgBodyCell"), "MessageV3", 1, pxMap("w,privateKey,internalMessages,msgConfig", map[string]string{"SubWalletId": "w.subWalletID", "ValidUntil": vu, "Seqno": "msgConfig.Seqno", "RawMessages": "internalMessages"}))
+	c.literalIs(R, c.mustFn(R, "wallet", "walletV4.createSignedMsgBodyCell"), "MessageV4", 1, pxMap("w,privateKey,internalMessages,msgConfig", map[string]string{"SubWalletId": "w.subWalletID", "ValidUntil": vu, "Seqno": "msgConfig.Seqno", "RawMessages": "internalMessages"}))
+	c.literalIs(R, c.mustFn(R, "wallet", "walletHighloadV2.createSignedMsgBodyCell"), "HighloadV2Message", 1, pxMap("w,privateKey,internalMessages,msgConfig", map[string]string{"SubWalletId": "w.subWalletID", "BoundedQueryID": "call:math/rand.Uint32," + vu, "RawMessages": "internalMessages"}))
+	c.literalIs(R, c.mustFn(R, "wallet", "walletV5R1.CreateSignedMsgBodyCell"), "extV5R1SignedMessage", 1, pxMap("w,privateKey,internalMessages,extensionsActions,msgConfig", map[string]string{"WalletId": "w.walletID", "ValidUntil": vu, "Seqno": "msgConfig.Seqno", "Actions": "internalMessages", "ExtendedActions": "extensionsActions"}))
+	c.literalIs(R, c.mustFn(R, "wallet", "walletV5R1.CreateMsgBodyWithoutSignature"), "extV5R1SignedMessage", 1, pxMap("w,internalMessages,msgConfig", map[string]string{"WalletId": "w.walletID", "ValidUntil": vu, "Seqno": "msgConfig.Seqno", "Actions": "internalMessages"}))
 	beta := map[string]string{"WalletId.NetworkGlobalID": "w.networkGlobalID", "WalletId.Workchain": "w.workchain", "WalletId.SubWalletID": "w.subWalletID", "ValidUntil": vu, "Seqno": "msgConfig.Seqno", "Actions": "internalMessages"}
-	c.literalIs(R, c.mustFn(R, "wallet", "walletV5Beta.createSignedMsgBodyCell"), "extV5BetaSignedMessage", 1, beta)
-	c.literalIs(R, c.mustFn(R, "wallet", "walletV5Beta.CreateMsgBodyWithoutSignature"), "extV5BetaSignedMessage", 1, beta)
+	c.literalIs(R, c.mustFn(R, "wallet", "walletV5Beta.createSignedMsgBodyCell"), "extV5BetaSignedMessage", 1, pxMap("w,privateKey,internalMessages,msgConfig", beta))
+	c.literalIs(R, c.mustFn(R, "wallet", "walletV5Beta.CreateMsgBodyWithoutSignature"), "extV5BetaSignedMessage", 1, pxMap("w,internalMessages,msgConfig", beta))
 	// ValidUntil is the unix time truncated to 32 bits; the highload query id carries it in the upper 32 bits
 	for _, name := range []string{"walletV3.createSignedMsgBodyCell", "walletV4.createSignedMsgBodyCell", "walletV5R1.CreateSignedMsgBodyCell", "walletV5Beta.createSignedMsgBodyCell"} {
 		f := c.mustFn(R, "wallet", name)
@@ -457,7 +457,7 @@ func (c *Ctx) walletLimits() {
 			if iff := lastIf(b); iff != nil {
 				if bo, ok := iff.Cond.(*ssa.BinOp); ok && bo.Op.String() == ">" {
 					if cl := callOf(bo.X); cl != nil {
-						if bi, ok := cl.Call.Value.(*ssa.Builtin); ok && bi.Name() == "len" && strings.Join(leaves(cl.Call.Args[0]), ",") == f.Params[0].Name() {
+						if bi, ok := cl.Call.Value.(*ssa.Builtin); ok && bi.Name() == "len" && strings.Join(leaves(cl.Call.Args[0]), ",") == "#0" {
 							if k, ok := constInt(bo.Y); ok {
 								// the true edge must fail
 								return k, true
@@ -494,7 +494,7 @@ func (c *Ctx) walletLimits() {
 					return false
 				}
 				cl := callOf(bo.X)
-				return cl != nil && strings.Join(leaves(cl.Call.Args[0]), ",") == "p"
+				return cl != nil && strings.Join(leaves(cl.Call.Args[0]), ",") == "#0"
 			}, kind: "notbool"}}, nil, "")
 		}
 	}
@@ -725,6 +725,6 @@ func (c *Ctx) sendLimitGuard(R string) {
 			return false
 		}
 		c2 := callOf(b.Y)
-		return c2 != nil && c2.Call.IsInvoke() && c2.Call.Method.Name() == "maxMessageNumber" && strings.Join(leaves(b.X), ",") == "internalMessages" && b.Op.String() == ">"
+		return c2 != nil && c2.Call.IsInvoke() && c2.Call.Method.Name() == "maxMessageNumber" && strings.Join(leaves(b.X), ",") == "#4" && b.Op.String() == ">"
 	}, kind: "notbool"})
 }
